@@ -78,10 +78,7 @@ fn from_hand_clause(ws: &[u32]) -> Result<(), String> {
 
 fn text_clause(s: &str) -> Result<(), String> {
     let got = guard(|| BinaryCard::from_index(s)).map_err(|m| format!("BinaryCard::from_index({:?}) panicked: {}", s, m))?;
-    if text::has_exotic_whitespace(s) {
-        return Ok(());
-    }
-    let want = text::tokens(s).iter().fold(0u64, |m, t| m | card::bit_of(text::card_of_token(t)));
+    let want = text::tokens_with(super::c12::ws_def(), s).iter().fold(0u64, |m, t| m | card::bit_of(text::card_of_token(t)));
     if got != want {
         return Err(format!("BinaryCard::from_index({:?}) = {:#x}, expected {:#x} (the distinct real cards among its tokens)", s, got, want));
     }
@@ -260,6 +257,7 @@ fn slot_strategy() -> impl Strategy<Value = u32> {
         14 => (0usize..52).prop_map(|i| card::DECK[i]),
         3 => Just(0u32),
         1 => (0usize..52, 0u32..32).prop_map(|(i, b)| card::DECK[i] ^ (1 << b)),
+        1 => (0usize..52, 1u32..8).prop_map(|(i, m)| card::DECK[i] | (m << 29)),
         1 => any::<u32>(),
     ]
 }
@@ -344,7 +342,7 @@ pub fn run(run: &mut Run) -> PResult {
     // R: hands of every size
     {
         let st = engine::RStats::new();
-        let cases = if thorough { 16_000_000 } else { 2_000_000 };
+        let cases = (if thorough { 16_000_000 } else { 2_000_000 }) / if run.is_twin() { 4 } else { 1 };
         // forced repeats: a slot may copy an earlier slot
         let make = || {
             (2usize..=7).prop_flat_map(|n| (proptest::collection::vec(slot_strategy(), n), proptest::collection::vec(proptest::option::weighted(0.15, 0usize..7), n))).prop_map(|(mut ws, copies)| {
@@ -376,7 +374,7 @@ pub fn run(run: &mut Run) -> PResult {
     // R: texts
     {
         let st = engine::RStats::new();
-        let cases = if thorough { 4_000_000 } else { 400_000 };
+        let cases = (if thorough { 4_000_000 } else { 400_000 }) / if run.is_twin() { 4 } else { 1 };
         let make = || super::c12::hand_text_strategy(0..=9usize);
         let res = pt::run_sharded(run.seed, 0xC15_7, cases, &make, &|s: String| {
             st.note(engine::hash_str(&s), true, None, || json!({"text": s}));
@@ -415,7 +413,7 @@ pub fn run(run: &mut Run) -> PResult {
     // R: sets peeled to exhaustion + histories
     {
         let st = engine::RStats::new();
-        let cases = if thorough { 8_000_000 } else { 800_000 };
+        let cases = (if thorough { 8_000_000 } else { 800_000 }) / if run.is_twin() { 4 } else { 1 };
         let make = || (set_strategy(), proptest::collection::vec(op_strategy(), 0..80));
         let res = pt::run_sharded(run.seed, 0xC15_415, cases, &make, &|(start, ops): (u64, Vec<Op>)| {
             let mut h = mix(start);
@@ -510,7 +508,7 @@ pub fn run_c16(run: &mut Run) -> PResult {
     run.class("two bits, at least one above the card bits (InvalidBinaryFormat)", over2);
     run.sample(json!({"set": "0x8000000000001", "result": "A♠ 2♣"}));
     run.sample(json!({"set": "0x10000000000001", "result": "InvalidBinaryFormat"}));
-    let cases = if run.tier == Tier::Thorough { 16_000_000 } else { 2_000_000 };
+    let cases = (if run.tier == Tier::Thorough { 16_000_000 } else { 2_000_000 }) / if run.is_twin() { 4 } else { 1 };
     let st = engine::RStats::new();
     let make = || {
         prop_oneof![
